@@ -40,7 +40,87 @@ def make(i, tier):
     return seed, scn
 
 
+F = "arn:aws:rpcmessage:local::function:"
+LIMIT = 262144
+
+
+def rare_machine(rng):
+    """Ends that ordinary programs seldom reach: each still has to look the same on every surface."""
+    kind = rng.choice(["output-over-quota-pass", "output-over-quota-task", "output-over-quota-map", "output-at-quota",
+                       "execution-timeout-wait", "execution-timeout-task", "no-choice-matched", "bad-outputpath-at-end",
+                       "fail-state", "intrinsic-failure", "task-error-uncaught", "resultpath-failure", "succeed-outputpath"])
+    big = "x" * (LIMIT // 2 - 40)
+    inp = {"k": 1}
+    script = {}
+    if kind == "output-over-quota-pass":
+        inp = {"s": big + "y" * rng.choice([40, 60, 200])}
+        d = {"StartAt": "P", "States": {"P": {"Type": "Pass", "Parameters": {"a.$": "$.s", "b.$": "$.s"}, "End": True}}}
+    elif kind == "output-at-quota":
+        # {"a": "<n>", "b": "<n>"} has 2n + 20 characters
+        n = (LIMIT - 20) // 2
+        inp = {"s": "z" * n}
+        d = {"StartAt": "P", "States": {"P": {"Type": "Pass", "Parameters": {"a.$": "$.s", "b.$": "$.s"}, "End": True}}}
+    elif kind == "output-over-quota-task":
+        inp = {"s": big + "y" * 100}
+        d = {"StartAt": "T", "States": {"T": {"Type": "Task", "Resource": F + "echo", "ResultPath": "$.r", "End": True}}}
+        script = {"echo": [{"ok": {"op": "echo"}, "delay": 1.0}]}
+    elif kind == "output-over-quota-map":
+        inp = {"items": ["q" * 90000, "r" * 90000, "s" * 90000]}
+        d = {"StartAt": "M", "States": {"M": {"Type": "Map", "ItemsPath": "$.items", "End": True, "ItemProcessor": {
+            "StartAt": "P", "States": {"P": {"Type": "Pass", "End": True}}}}}}
+    elif kind == "execution-timeout-wait":
+        d = {"StartAt": "W", "TimeoutSeconds": 3, "States": {"W": {"Type": "Wait", "Seconds": 10, "End": True}}}
+    elif kind == "execution-timeout-task":
+        d = {"StartAt": "T", "TimeoutSeconds": 3, "States": {"T": {"Type": "Task", "Resource": F + "silent", "End": True,
+                                                                 "Catch": [{"ErrorEquals": ["States.ALL"], "Next": "H"}]},
+                                                           "H": {"Type": "Pass", "End": True}}}
+        script = {"silent": [{"noreply": True}]}
+    elif kind == "no-choice-matched":
+        d = {"StartAt": "C", "States": {"C": {"Type": "Choice", "Choices": [{"Variable": "$.k", "NumericEquals": 2, "Next": "S"}]},
+                                        "S": {"Type": "Succeed"}}}
+    elif kind == "bad-outputpath-at-end":
+        d = {"StartAt": "P", "States": {"P": {"Type": "Pass", "OutputPath": "$.missing.deeper", "End": True}}}
+    elif kind == "fail-state":
+        d = {"StartAt": "P", "States": {"P": {"Type": "Pass", "Next": "F"}, "F": {"Type": "Fail", "Error": "E.Rare", "Cause": "a cause"}}}
+    elif kind == "intrinsic-failure":
+        d = {"StartAt": "P", "States": {"P": {"Type": "Pass", "Parameters": {"v.$": "States.JsonToString($.k, 1)"}, "End": True}}}
+    elif kind == "task-error-uncaught":
+        d = {"StartAt": "T", "States": {"T": {"Type": "Task", "Resource": F + "bad", "End": True}}}
+        script = {"bad": [{"err": "E.Worker", "msg": "it broke", "delay": 0.5}]}
+    elif kind == "resultpath-failure":
+        inp = 5
+        d = {"StartAt": "P", "States": {"P": {"Type": "Pass", "Result": 1, "ResultPath": "$.a.b", "End": True}}}
+    else:
+        inp = {"keep": {"z": 1}, "drop": 2}
+        d = {"StartAt": "S", "States": {"S": {"Type": "Succeed", "OutputPath": "$.keep"}}}
+    return kind, d, inp, script
+
+
+def make_rare(i):
+    seed = common.run_seed(9000000 + i)
+    rng = random.Random(seed)
+    cfg = E.policy_cfg(rng.choice(ALL_POLICIES))
+    cfg["store"] = rng.choice(["file", "redis", "redis"])
+    cfg["transport"] = rng.choice(["asyncio", "asyncio", "blocking"])
+    cfg["nodes"] = rng.choice([1, 2]) if cfg["store"] == "redis" else 1
+    cfg["execution_ttl"] = 3600
+    cfg["tz"] = rng.choice(["UTC0", "SIM-05:30"])
+    kind, d, inp, script = rare_machine(rng)
+    typ = rng.choice(["STANDARD", "STANDARD", "EXPRESS"])
+    ex = {"machine": "m", "input": inp, "name": "e0", "at": 0.0, "node": rng.randrange(cfg["nodes"])}
+    if typ == "EXPRESS" and rng.random() < 0.4:
+        ex["via"] = "sync"
+    scn = {"machines": {"m": {"definition": d, "type": typ, "family": "rare:" + kind}}, "executions": [ex],
+           "script": script, "functions": sorted(script), "config": cfg}
+    return seed, scn, kind
+
+
 def run_one(item, extra):
+    if isinstance(item, tuple) and item[0] == "rare":
+        seed, scn, kind = make_rare(item[1])
+        r = check(scn, seed)
+        r.setdefault("probes", {})["rare-end:" + kind] = 1
+        return r
     seed, scn = make(item, extra["tier"])
     return check(scn, seed)
 
@@ -82,7 +162,8 @@ def main(argv):
     tier = common.tier()
     n = 1600 if tier == "quick" else 80000
     rep = common.Report(PROP)
-    for r in common.run_batch("checks.c11", "run_one", range(n), {"tier": tier}):
+    items = list(range(n)) + [("rare", k) for k in range(260 if tier == "quick" else 13000)]
+    for r in common.run_batch("checks.c11", "run_one", items, {"tier": tier}):
         rep.absorb(r)
     return rep.finish(
         rule="executions generated for C01-C07 run with the surface monitor: at every notification publish the stored "
@@ -93,7 +174,10 @@ def main(argv):
              "record is; one notification per status change; the record read at every Redis command boundary (another "
              "instance) and by a REST thread at every broker operation of the blocking engine thread is whole and in seconds; "
              "at the end DescribeExecution / ListExecutions / GetExecutionHistory through every instance equal the store and "
-             "each other, EXPRESS executions have notifications only; distinct = distinct (scenario, interleaving) hashes",
+             "each other, EXPRESS executions have notifications only; a second slice drives the ends ordinary programs seldom "
+             "reach (terminal output over / at the 262144 quota from Pass, Task and Map, execution time-out in Wait and "
+             "Task, no Choice matched, bad OutputPath at the end, Fail, intrinsic failure, uncaught task error, ResultPath "
+             "failure, Succeed with OutputPath) through the same rules; distinct = distinct (scenario, interleaving) hashes",
         assumptions=["fault-free runs (crash/restart duplicates are C04's subject)",
                      "file-backed configurations use one instance (a file store is not shared between instances)",
                      "pre-emption is placed at I/O boundaries (Redis commands, broker operations), not between bytecodes"])
